@@ -38,7 +38,6 @@ from jax2onnx.plugins.jax.numpy.histogram import (
 )
 from jax2onnx.plugins.plugin_system import PrimitiveLeafPlugin, register_primitive
 
-
 _HISTOGRAM2D_PRIM: Final = make_jnp_primitive("jax.numpy.histogram2d")
 _HISTOGRAM2D_PRIM.multiple_results = True
 
@@ -392,9 +391,11 @@ class JnpHistogram2dPlugin(PrimitiveLeafPlugin):
         y_edges_dtype: np.dtype[Any] = np.dtype(
             getattr(y_edges_var.aval, "dtype", y_edges_out_dtype)
         )
-        compare_dtype: np.dtype[Any] = np.promote_types(
-            np.promote_types(x_dtype, y_dtype),
-            np.promote_types(x_edges_out_dtype, y_edges_out_dtype),
+        compare_dtype: np.dtype[Any] = np.dtype(
+            jnp.promote_types(
+                jnp.promote_types(x_dtype, y_dtype),
+                jnp.promote_types(x_edges_out_dtype, y_edges_out_dtype),
+            )
         )
 
         x_val = ctx.get_value_for_var(x_var, name_hint=ctx.fresh_name("hist2d_x"))
